@@ -96,7 +96,8 @@ pub fn run_with_interpreter(mut it: Interpreter<f32>) {
                     rl.add_history_entry(source.clone());
                     source.clear();
                 }
-				else {
+				else if !source.ends_with('\n') {
+					// a line read from a pipe still carries its line break; a line typed at a terminal does not
 					source.push('\n');
 				}
             }
